@@ -92,7 +92,7 @@ class Sim(conc.Hooks):
 
     # ------------------------------------------------------------------ symbolic invariant state
     def havoc(self, *, tie_n=None, tie_r=None, closed=None, killed=False, force_killed=False, waiting=None,
-              min_len=0, explicit_next=None, sender=None):
+              min_len=0, explicit_next=None, sender=None, exact_len=None):
         """Overwrite the mailbox state with a fresh symbolic state satisfying the invariant.
 
         tie_n: value that _n_sent must equal (sender's stale local).  tie_r: {j: value} for a reader's own
@@ -116,6 +116,8 @@ class Sim(conc.Hooks):
         # heap length: fork over 0..lmax
         lmax = self.lmax if self.lazy or self.cap is None else min(self.lmax, self.cap)
         Lsym = fresh_int(tag + "L", min_len, lmax)
+        if exact_len is not None:
+            assume(Lsym == exact_len)
         L = core.concretize(Lsym)
         if self.numbering == "default":
             # the queue holds exactly the messages m+1..n-1; its ARRAY is one of the layouts a binary heap can reach by
@@ -577,3 +579,112 @@ def nat_rg(sym_fn):
                 "detail": f"'{label}' fails on the real Mailbox; injected states reached by real thread schedules {scripts}"}
 
     return native
+
+
+# ======================================================================================
+# completeness of the rely invariant: every state that REAL threads reach must be a state Sim.havoc can produce
+# (an invariant that excludes reachable states silently shrinks every "from any invariant state" claim)
+def enumerate_states(nsubs, lazy, cap, drivers, nreal, order=None, budget=1500):
+    """Distinct (shift-normalised) mailbox states seen at the scheduling points of ALL schedules of a real sender and
+    real readers (stateful DFS as in search_reach).  order: explicit send order (then nothing is closed)."""
+    import strax.mailbox as mbm
+
+    states, seen, work, runs = {}, set(), [()], 0
+    while work and runs < budget:
+        script = list(work.pop())
+        runs += 1
+        pos = {"i": 0}
+        holder = {}
+
+        def pol(s, r):
+            mb = holder["mb"]
+            cur = _snap(mb)
+            if cur["r"] and not cur["killed"]:
+                nst = normalise(cur)
+                sending = holder.get("fetching") == cur["n"]
+                key = (nst["n"], tuple(nst["r"]), tuple(nst["w"]) if lazy else None, tuple(nst["heap"]), nst["closed"],
+                       tuple(nst["stop"]), sending)
+                states.setdefault(key, dict(nst, sending=sending))
+            i = pos["i"]
+            pos["i"] += 1
+            if i < len(script):
+                for t in r:
+                    if t.tid == script[i]:
+                        return t
+                raise _Found()
+            k2 = (mb._n_sent, tuple(mb._subscribers_have_read), tuple(mb._subscriber_waiting_for),
+                  tuple(h for h, _ in mb._mailbox), mb.closed,
+                  tuple((t.state, t.notified, getattr(t.cond, "name", None)) for t in s.tasks), s.current.tid)
+            if k2 in seen:
+                raise _Found()
+            seen.add(k2)
+            r = sorted(r, key=lambda t: t.tid)
+            for alt in r[1:]:
+                work.append(tuple(s.trace) + (alt.tid,))
+            return r[0]
+
+        with SchedRun(pol) as s:
+            mb = mbm.Mailbox("mb", timeout=1, lazy=lazy, max_messages=cap)
+            holder["mb"] = mb
+
+            def reader(it, j):
+                s.pause()
+                for x in it:
+                    s.pause()
+
+            for j in range(nsubs):
+                mb.add_reader(reader, j=j, can_drive=drivers[j])
+            if order is None:
+                def source():
+                    for i in range(nreal):
+                        holder["fetching"] = i
+                        s.pause()
+                        yield ("payload", i)
+                    holder["fetching"] = "end"
+                    s.pause()
+                mb.add_sender(source())
+            else:
+                def sender():
+                    for k in order:
+                        s.pause()
+                        mb.send(("payload", k), msg_number=k)
+                    s.pause()
+                    s.park()
+                mb._threads.append(mbm.threading.Thread(target=sender, name="explicit_sender"))
+            try:
+                mb.start()
+                s.finish()
+            except _Found:
+                pass
+    return list(states.values()), runs
+
+
+def covered_by_invariant(st, nsubs, lazy, cap, drivers, numbering):
+    """Is the concrete (normalised) state st one of the states Sim.havoc ranges over?  Decided by a nested exploration:
+    havoc, constrain to st, and ask for a reachability witness."""
+    def probe():
+        sim = Sim(nsubs, lazy, cap, drivers=drivers, lmax=max(len(st["heap"]), 1 if cap is None else cap, 3),
+                  numbering=numbering)
+        waiting = {j: st["w"][j] for j in range(nsubs)} if lazy else None
+        h = sim.havoc(closed=bool(st["closed"]), exact_len=len(st["heap"]), waiting=None,
+                      sender="sending" if (st.get("sending") and not st["closed"]) else None)
+        # shift: the havocked state may sit anywhere on the number line
+        sh = fresh_int("shift", 0, N_MAX)
+        assume(h["n"] == st["n"] + sh)
+        for j in range(nsubs):
+            assume(h["r"][j] == st["r"][j] + sh)
+            if lazy:
+                if st["w"][j] is None:
+                    assume(h["w"][j] is None)
+                else:
+                    assume(h["w"][j] is not None)
+                    if h["w"][j] is not None:
+                        assume(h["w"][j] == st["w"][j] + sh)
+        for (hn, hv), want in zip(h["heap"], st["heap"]):
+            assume(hn == want + sh)
+            if (want in st["stop"]) != (hv is StopIteration):
+                assume(False)
+        prove(False, "covered")
+
+    res = core.nested_explore(probe, max_paths=400, stop_on_cex=True, want_witness=0)
+    return any(c["label"] == "covered" for c in res.cex)
